@@ -84,6 +84,10 @@ def decorated(a: int, b: int = (lambda q: q)(3)) -> int:
     except Exception:
         del total
         return 0
+    except:
+        for v in (a, b):
+            total = int(v)
+        raise
     else:
         assert total, "msg"
     finally:
